@@ -884,3 +884,82 @@ Proof.
     vm_compute in E2. inversion E2; subst h'. vm_compute. discriminate.
   - rewrite RC. vm_compute. discriminate.
 Qed.
+
+(* ------------------------------------------------------------------------------------------------
+   Comparator census (session 3, strengthening after seed C04-5).  The rbtree theorems above hold
+   for a comparator that is a strict weak order; [dcache_key_compare_is_order] discharged that for
+   ONE caller.  Here the obligation is stated and proved per comparator model for the other callers
+   (coq/C19/CmpCensus.v, tied to the static C functions by props/C19/cmp_census.py, which also finds
+   the call sites in the working tree so that a new one cannot enter without a probe), and the
+   comparator "difference of the 64 bit keys returned as int" is refuted on inode references. *)
+From SqfsV Require Import C19.CmpCensus.
+
+(* dir_hl.c compare_inum (hard link filter, keys (dev, inode reference)): an order, and zero exactly
+   on equal keys - no two inodes are taken for one *)
+Theorem compare_inum_is_order :
+  (forall a b, (cmp_inum a b < 0 <-> 0 < cmp_inum b a)%Z) /\
+  (forall a b c, (cmp_inum a b <= 0 -> cmp_inum b c <= 0 -> cmp_inum a c <= 0)%Z) /\
+  (forall a b, cmp_inum a b = 0%Z <-> key_dev a = key_dev b /\ key_inum a = key_inum b).
+Proof. exact (conj cmp_inum_antisym (conj cmp_inum_trans cmp_inum_zero)). Qed.
+Print Assumptions compare_inum_is_order.
+
+(* xattr_writer_record.c compare_u64 (qsort of an inode's pairs) *)
+Theorem compare_u64_is_order :
+  (forall a b, (cmp_u64 a b < 0 <-> 0 < cmp_u64 b a)%Z) /\
+  (forall a b c, (cmp_u64 a b <= 0 -> cmp_u64 b c <= 0 -> cmp_u64 a c <= 0)%Z).
+Proof. exact (conj cmp_u64_antisym cmp_u64_trans). Qed.
+Print Assumptions compare_u64_is_order.
+
+(* xattr_writer.c block_compare, for every content of the pair array it compares through *)
+Theorem block_compare_is_order : forall pairs,
+  (forall a b, (cmp_block pairs a b < 0 <-> 0 < cmp_block pairs b a)%Z) /\
+  (forall a b c, (cmp_block pairs a b <= 0 -> cmp_block pairs b c <= 0 -> cmp_block pairs a c <= 0)%Z).
+Proof. exact (fun pairs => conj (cmp_block_antisym pairs) (cmp_block_trans pairs)). Qed.
+Print Assumptions block_compare_is_order.
+
+(* the hard link filter's tree is a map: rbtree_refines_map_thm with its hypotheses discharged *)
+Theorem hard_link_filter_tree_refines_map : forall ops t next,
+  rbtree_inv cmp_inum t -> ssorted cmp_inum (rb_key_size t) (elements (rb_root t)) ->
+  Forall (fun kv => RbModel.lenN (fst kv) = rb_key_size t /\ RbModel.lenN (snd kv) = rb_value_size t) ops ->
+  exists t' next',
+    rb_puts cmp_inum (t, next) ops = Some (t', next') /\
+    (elements (rb_root t'), next') = fold_left (amap_put cmp_inum t) ops (elements (rb_root t), next) /\
+    rbtree_inv cmp_inum t' /\ ssorted cmp_inum (rb_key_size t') (elements (rb_root t')) /\ same_sizes t' t /\
+    forall k, node_elem (rbtree_lookup cmp_inum t' k) = amap_find cmp_inum (rb_key_size t') k (elements (rb_root t')).
+Proof. exact (rbtree_refines_map cmp_inum cmp_inum_antisym cmp_inum_trans). Qed.
+Print Assumptions hard_link_filter_tree_refines_map.
+
+Example ex_hard_link_filter_hypotheses :
+  fst (rbtree_init 16 8) = 0%Z /\
+  Forall (fun kv => RbModel.lenN (fst kv) = rb_key_size hl_tree0 /\ RbModel.lenN (snd kv) = rb_value_size hl_tree0) hl_ops /\
+  rb_key_size_padded hl_tree0 = 16%N.
+Proof. exact ex_hl_hypotheses. Qed.
+
+Example ex_hard_link_filter_finds_all :
+  match rb_puts cmp_inum (hl_tree0, 0%N) hl_ops with
+  | Some (t, next) =>
+    next = 5%N /\ map (fun kv => node_value 8 (rbtree_lookup cmp_inum t (fst kv))) hl_ops = map snd hl_ops
+  | None => False
+  end.
+Proof. exact ex_hl_found. Qed.
+
+(* "return l->inum - r->inum;": on inode references 3 metadata blocks apart "<=" is not transitive, and
+   inodes 2^32 apart compare equal *)
+Theorem compare_inum_truncated_difference_refuted :
+  (exists a b c, (cmp_inum_sub a b <= 0 /\ cmp_inum_sub b c <= 0 /\ ~ cmp_inum_sub a c <= 0)%Z) /\
+  (exists a b, key_inum a <> key_inum b /\ key_dev a = key_dev b /\ cmp_inum_sub a b = 0%Z).
+Proof. exact (conj cmp_inum_sub_not_transitive cmp_inum_sub_merges). Qed.
+
+(* ... and the filter loses an inode: first names of five inodes in metadata blocks 0, 5, 2, 8, 11
+   (uncompressed inode table), lookup + insert as the filter does; the inode in block 5 is stored in
+   the tree but not found again, so its second name would be written as an independent file *)
+Theorem hard_link_filter_loses_inode_refuted :
+  exists ops k,
+    In k (map fst ops) /\
+    match rb_puts cmp_inum_sub (hl_tree0, 0%N) ops with
+    | Some (t, _) =>
+      rbtree_lookup cmp_inum_sub t k = Leaf /\
+      In k (map (fun e => firstnN 16 (e_data e)) (elements (rb_root t)))
+    | None => False
+    end.
+Proof. exact hl_filter_loses_inode. Qed.
